@@ -417,6 +417,9 @@ func (e *genEnv) aliasCases(withFollower bool) []*request {
 	for ti, t := range e.stable {
 		other := e.stable[(ti+1)%len(e.stable)]
 		for si, sp := range aliasSpellings(t, other) {
+			if ti > 0 && si >= coreAliases {
+				continue // the spellings that are not path-like: first table only
+			}
 			if withFollower {
 				out = append(out, aliasKV(sp, true)...)
 				if si%len(e.stable) == ti {
@@ -432,7 +435,10 @@ func (e *genEnv) aliasCases(withFollower bool) []*request {
 	}
 	for ti, t := range e.stable {
 		other := e.stable[(ti+1)%len(e.stable)]
-		for _, sp := range aliasSpellings(t, other) {
+		for si, sp := range aliasSpellings(t, other) {
+			if ti > 0 && si >= coreAliases {
+				continue
+			}
 			out = append(out, &request{Method: mDropTable, Kind: "tables-delete-unknown-table", Msg: &pb.DeleteTableRequest{Name: sp}})
 		}
 	}
@@ -440,12 +446,13 @@ func (e *genEnv) aliasCases(withFollower bool) []*request {
 	// model says; an accepted creation is a NEW table under exactly the name sent
 	for ti, t := range e.stable {
 		sps := aliasSpellings(t, e.stable[(ti+1)%len(e.stable)])
-		n := coreAliases
+		// the path-like ones contain '/': refused. Of the others, which may be accepted, a few per run.
+		pick := []int{0, 1, 2, 3, 4, 5, 6, 7, 8, 9, 10, 11, 12, 15, 18, 20}
 		if ti > 0 {
-			n = 2
+			pick = []int{ti * 3, ti*3 + 1, 12 + ti}
 		}
-		for si := 0; si < n; si++ {
-			sp := sps[(si+ti*4)%coreAliases]
+		for _, si := range pick {
+			sp := sps[si]
 			// Keep: an accepted creation is not dropped right away; the write and the read that
 			// follow must then act on the NEW table only, and the deletion must remove only it.
 			// (Where the creation is refused, the three are requests to an unknown table.)
